@@ -1,11 +1,47 @@
-import TucanProofs.Lemmas.Sort
-import TucanModel.Serialize
-/-! # C02 — property theorems (see DESIGN.md §5) -/
+import TucanProofs.Lemmas.RoundTripPipeline
+import TucanProofs.Examples
+/-!
+# C02 — different molecules never share a TUCAN string
+
+Equal strings parse to the same graph, and that graph is (by C03's reconstruction) both molecules under a
+renaming; composing the two renamings gives a colour-preserving isomorphism.  The two oracles need not
+satisfy the bliss contract — only return permutations — so distinctness does not rest on bliss being
+right.  Together with C01 the string is a complete invariant.
+-/
 namespace Tucan
 
-/-- The tuple list written by the serializer is a function of the *set* of bonds: any two listings of
-the same normalised bonds give the same sorted list. -/
-theorem C02_tuples_listing_independent {l₁ l₂ : List (Nat × Nat)} (h : l₁.Perm l₂) :
-    l₁.mergeSort leNN = l₂.mergeSort leNN := sortNN_perm_eq h
+/-- **C02.**  If two molecules get the same string they are isomorphic as graphs coloured by element,
+isotope mass and radical state (`Iso SameIdent π`). -/
+theorem C02_injective (order₁ order₂ : Graph → List Nat)
+    (hperm₁ : ∀ r : Graph, r.WF → (order₁ r).Perm r.labels) (hperm₂ : ∀ r : Graph, r.WF → (order₂ r).Perm r.labels)
+    (g₁ g₂ : Graph) (hw₁ : g₁.WF) (hs₁ : g₁.Simple) (hm₁ : g₁.MolAtoms) (hw₂ : g₂.WF) (hs₂ : g₂.Simple) (hm₂ : g₂.MolAtoms)
+    (hsize₁ : (natRepr (g₁.numberOfNodes + 1)).length ≤ intMaxStrDigits)
+    (hsize₂ : (natRepr (g₂.numberOfNodes + 1)).length ≤ intMaxStrDigits)
+    (s : Str) (h₁ : tucanOf order₁ g₁ = .ok s) (h₂ : tucanOf order₂ g₂ = .ok s) :
+    ∃ π : Nat → Nat, Iso SameIdent π g₁ g₂ := by
+  obtain ⟨H₁, τ₁, hp₁, iso₁, _, _, _, _⟩ := pipeline_roundtrip order₁ hperm₁ g₁ hw₁ hs₁ hm₁ hsize₁ s h₁
+  obtain ⟨H₂, τ₂, hp₂, iso₂, _, _, _, _⟩ := pipeline_roundtrip order₂ hperm₂ g₂ hw₂ hs₂ hm₂ hsize₂ s h₂
+  rw [hp₁] at hp₂
+  injection hp₂ with hH
+  subst hH
+  obtain ⟨τ₂', iso₂', _⟩ := iso₂.symm (fun x y => sameIdent_symm' x y) hw₂
+  exact ⟨τ₂' ∘ τ₁, iso₁.trans (fun x y z => sameIdent_trans' x y z) iso₂'⟩
+
+/-- contrapositive reading: non-isomorphic molecules get different strings -/
+theorem C02_distinct (order₁ order₂ : Graph → List Nat)
+    (hperm₁ : ∀ r : Graph, r.WF → (order₁ r).Perm r.labels) (hperm₂ : ∀ r : Graph, r.WF → (order₂ r).Perm r.labels)
+    (g₁ g₂ : Graph) (hw₁ : g₁.WF) (hs₁ : g₁.Simple) (hm₁ : g₁.MolAtoms) (hw₂ : g₂.WF) (hs₂ : g₂.Simple) (hm₂ : g₂.MolAtoms)
+    (hsize₁ : (natRepr (g₁.numberOfNodes + 1)).length ≤ intMaxStrDigits)
+    (hsize₂ : (natRepr (g₂.numberOfNodes + 1)).length ≤ intMaxStrDigits)
+    (hnon : ¬ ∃ π : Nat → Nat, Iso SameIdent π g₁ g₂)
+    (s₁ s₂ : Str) (h₁ : tucanOf order₁ g₁ = .ok s₁) (h₂ : tucanOf order₂ g₂ = .ok s₂) : s₁ ≠ s₂ := by
+  intro he
+  subst he
+  exact hnon (C02_injective order₁ order₂ hperm₁ hperm₂ g₁ g₂ hw₁ hs₁ hm₁ hw₂ hs₂ hm₂ hsize₁ hsize₂ s₁ h₁ h₂)
+
+/-- non-vacuity: a concrete molecule meets all hypotheses -/
+example : exGraph.WF ∧ exGraph.Simple ∧ exGraph.MolAtoms ∧
+    (natRepr (exGraph.numberOfNodes + 1)).length ≤ intMaxStrDigits :=
+  ⟨exGraph_wf, exGraph_simple, exGraph_molAtoms, by decide⟩
 
 end Tucan
